@@ -639,3 +639,36 @@ func (e *linEnv) lenLinOfValue(v ssa.Value) Lin {
 	}
 	return e.lenLin(v)
 }
+
+// typedPath: like addrPath, but rooted at the *type* of the parameter / local instead of its name
+// (used for report keys that must not change when a variable is renamed).
+func typedPath(v ssa.Value) string {
+	switch a := v.(type) {
+	case *ssa.Parameter:
+		return typeShort(derefNamed(a.Type()))
+	case *ssa.Alloc:
+		return typeShort(derefNamed(a.Type()))
+	case *ssa.Global:
+		return "G:" + a.Name()
+	case *ssa.FieldAddr:
+		b := typedPath(a.X)
+		st := derefStruct(a.X.Type())
+		if b == "" || st == nil {
+			return ""
+		}
+		return b + "." + st.Field(a.Field).Name()
+	case *ssa.IndexAddr:
+		b := typedPath(a.X)
+		if b == "" {
+			return ""
+		}
+		return b + "[*]"
+	case *ssa.UnOp:
+		if a.Op == token.MUL {
+			return typedPath(a.X)
+		}
+	case *ssa.Phi:
+		return typeShort(derefNamed(a.Type()))
+	}
+	return ""
+}
